@@ -322,9 +322,10 @@ def load_known(prop):
     return known
 
 
-def write_evidence(prop, ev):
-    os.makedirs(os.path.join(VERIF, 'evidence'), exist_ok=True)
-    path = os.path.join(VERIF, 'evidence', f'{prop}.json')
+def write_evidence(prop, ev, subdir='evidence'):
+    """evidence/ holds exactly one file per listed property; supplementary checks (X..) write to supplementary/"""
+    os.makedirs(os.path.join(VERIF, subdir), exist_ok=True)
+    path = os.path.join(VERIF, subdir, f'{prop}.json')
     tmp = path + f'.{os.getpid()}.tmp'
     with open(tmp, 'w') as f:
         json.dump(ev, f, indent=1, default=str)
@@ -468,7 +469,7 @@ def run_check(prop, tier, replay=None):
         'assumptions': list(getattr(mod, 'ASSUMPTIONS', [])),
         'wall_s': round(time.time() - t0, 2), 'violations': len(fresh) + (1 if (tie_notes and not fresh) else 0),
     }
-    write_evidence(prop, ev)
+    write_evidence(prop, ev, getattr(mod, 'EVIDENCE_DIR', 'evidence'))
     log(f'{prop} {tier} seed={seed}: {len(discharged)}/{len(b.theorems)} theorems, {ctx.evaluations} evaluations, '
         f'{len(ctx.disagreements)} disagreements, {len(fresh)} violations, {len(known_hit)} known; {ev["wall_s"]}s')
     return status
